@@ -124,6 +124,7 @@ func recvTypeName(fn *ssa.Function) string {
 func runC01(c *Ctx) {
 	L := c.L
 	c.checkSameSequenceLength("same-sequence-length")
+	c.checkStopPolarity("stop-on-error", "align")
 	L.Rule("name-index", "a store to seq.name of a row that is not a fresh local object occurs only in a seqbag/align method, and on every path from the store to a normal return the name index is rebuilt (call to (*seqbag).reindex, possibly deferred earlier); (*seq).SetName is called only on detached sequences")
 	L.Rule("index-rebuild", "(*seqbag).reindex assigns a fresh map to seqmap and inserts every row of seqs under its current name")
 	L.Rule("insert-pairing", "AddSequenceChar inserts the same new row object into the name index (under the name it was created with) and appends it to the ordered row list, in the same block")
